@@ -65,7 +65,14 @@ def clone_conn(conn):
     memo = {id(conn._configuration): conn._configuration}
     for attempt in range(12):
         try:
-            return copy.deepcopy(conn, dict(memo))
+            c = copy.deepcopy(conn, dict(memo))
+            ql = conn._configuration.quic_logger
+            if ql is not None and c._quic_logger is not None:
+                # the copied trace must be known to the (shared) QuicLogger, as the original is
+                if not hasattr(ql, "_vf_base"):
+                    ql._vf_base = list(ql._traces)
+                ql._traces[:] = ql._vf_base + [c._quic_logger]
+            return c
         except TypeError as exc:
             # an un-copyable leaf (cryptography key / certificate object): share it
             tb = exc.__traceback__
